@@ -4,7 +4,8 @@ from vlib import common as K
 from vlib.impl import load
 
 ID = "C09"
-MODULES = K.mods("base", "Angle", "Epoch", "Interpolation", "Coordinates", "Earth", "Sun", "Mercury", "Venus",
+# "Moon" is here only because the imported C08 nutation theorems (C08_nut_bound.v) mention Moon's node polynomial
+MODULES = K.mods("base", "Angle", "Epoch", "Interpolation", "Coordinates", "Earth", "Sun", "Moon", "Mercury", "Venus",
                  "Mars", "Jupiter", "Saturn", "Uranus", "Neptune", "Pluto", "Minor")
 PLANETS = ["Mercury", "Venus", "Mars", "Jupiter", "Saturn", "Uranus", "Neptune"]
 REQUIRED = (["%s.geocentric_position" % p for p in PLANETS]
@@ -44,11 +45,17 @@ THEOREMS = ["C09_final_stage_direction",
             "C09_minor_direction",
             "C09_pluto_geo",
             "C09_pluto_refuses"]
+# C09_body_<Planet>_unconditional (coq/proofs/C09/C09_u_<Planet>.v): callee hypotheses discharged with the imported
+# theorems of C07 (VSOP87) and C08 (nutation, obliquity, Sun).  U_QUICK: planets whose file is compiled in the quick
+# tier; thorough compiles all seven.  proof_files(tier) extends THEOREMS accordingly (the driver reads THEOREMS after it).
+U_QUICK = list(PLANETS)
+BASE_THEOREMS = list(THEOREMS)
+THEOREMS = BASE_THEOREMS + ["C09_body_%s_unconditional" % p for p in U_QUICK]
 PROOF_TIMEOUT = {"quick": 2000, "thorough": 3000}
 EXHAUSTIVE = False
 MANIFEST = {
     "category": "proof",
-    "text": "Real-number (ideal) instance only; nothing is proved about binary64 rounding or about the headline tolerances (0.02 / 1e-4 degree agreement, Mercury/Venus maxima: searched). Proved about the GENERATED code, by call-by-value symbolic evaluation with callees blocked and given as hypotheses ONLY at the arguments really passed (PARTIAL CORRECTNESS: conditional on those callees returning values of the stated shape): the whole body of each of the seven <Planet>.geocentric_position (planet at epoch and epoch - tau, Earth at the caller's epoch, lambda/beta by atan2, aberration k = 20.49552 with the e/pi polynomials, FK5, nutation, ecliptical2equatorial NOT abstracted (C05 closed form) so RA/Dec are the rotation of (LAMG, BETG) by the true obliquity, elongation acos(cos B cos(L - Lsun)) with the Sun provably taken at the shifted epoch = known finding), under |T| <= 40 cy, |beta| <= 25 deg, |B| <= 25 deg assumed of the callee outputs; Minor.geocentric_position for e < 0.98 (kepler_equation hypotheses at the two mean anomalies used, shown satisfiable from C11's characterisation for 0 <= e < 1) and for 0.98 <= e, |e-1| >= tol (conditional on the two _near_parabolic calls returning - they may raise: known finding); Minor.heliocentric_ecliptical_position; Minor.set; Pluto.geocentric_position (year gate, two passes; Pluto.geometric_heliocentric_position abstracted). The closed forms are tied to spec theorems: direction of the vector, LAMG/BETG = geometric direction + corrections (mod 360) with corrections <= 0.02 deg (nutation bound assumed), elongation in [0,180], Cauchy-Schwarz for the minor-body elongation. JDE2000 = 2451545 proved. Not covered by proof: the parabolic branch (loop), the Pluto series, satisfiability of the VSOP/nutation/Sun callee hypotheses. Bit-exact correspondence on planet/Pluto/Minor calls; search oracle recomputing every direction from the library's own heliocentric vectors (planets), the re-evaluated Meeus series (Pluto) and an independent two-body propagation (minor bodies, incl. a fixed grid of exactly parabolic bodies).",
+    "text": "Real-number (ideal) instance only; C09_body_<Planet>_unconditional (7 planets): the VSOP87, Earth, nutation, obliquity and Sun callee hypotheses of the body theorems are discharged with the imported theorems of properties C07 and C08, the range assumptions (|T| <= 40, |beta|, |B| <= 25 deg) are derived, RA in [0,360), Dec in [-90,90], elongation in [0,180]; only Epoch.__isub__ = Epoch(j1) (calendar round trip, C02) remains a premise. nothing is proved about binary64 rounding or about the headline tolerances (0.02 / 1e-4 degree agreement, Mercury/Venus maxima: searched). Proved about the GENERATED code, by call-by-value symbolic evaluation with callees blocked and given as hypotheses ONLY at the arguments really passed (PARTIAL CORRECTNESS: conditional on those callees returning values of the stated shape): the whole body of each of the seven <Planet>.geocentric_position (planet at epoch and epoch - tau, Earth at the caller's epoch, lambda/beta by atan2, aberration k = 20.49552 with the e/pi polynomials, FK5, nutation, ecliptical2equatorial NOT abstracted (C05 closed form) so RA/Dec are the rotation of (LAMG, BETG) by the true obliquity, elongation acos(cos B cos(L - Lsun)) with the Sun provably taken at the shifted epoch = known finding), under |T| <= 40 cy, |beta| <= 25 deg, |B| <= 25 deg assumed of the callee outputs; Minor.geocentric_position for e < 0.98 (kepler_equation hypotheses at the two mean anomalies used, shown satisfiable from C11's characterisation for 0 <= e < 1) and for 0.98 <= e, |e-1| >= tol (conditional on the two _near_parabolic calls returning - they may raise: known finding); Minor.heliocentric_ecliptical_position; Minor.set; Pluto.geocentric_position (year gate, two passes; Pluto.geometric_heliocentric_position abstracted). The closed forms are tied to spec theorems: direction of the vector, LAMG/BETG = geometric direction + corrections (mod 360) with corrections <= 0.02 deg (nutation bound assumed), elongation in [0,180], Cauchy-Schwarz for the minor-body elongation. JDE2000 = 2451545 proved. Not covered by proof: the parabolic branch (loop), the Pluto series, satisfiability of the VSOP/nutation/Sun callee hypotheses. Bit-exact correspondence on planet/Pluto/Minor calls; search oracle recomputing every direction from the library's own heliocentric vectors (planets), the re-evaluated Meeus series (Pluto) and an independent two-body propagation (minor bodies, incl. a fixed grid of exactly parabolic bodies).",
     "technique": "call-by-value symbolic evaluation (pyrun9) of the regenerated model in the real-number instance with blocked callees + real analysis (atan2/acos lemmas, Cauchy-Schwarz, interval) + bit-exact differential correspondence + oracle search",
     "design_ref": "8/C09",
 }
@@ -61,6 +68,7 @@ EXPLANATION = ("Ideal (real-number) instance, partial correctness with abstracte
                "returning), Minor.heliocentric_ecliptical_position and Pluto.geocentric_position are evaluated the same way. The parabolic loop, "
                "the Pluto series, and the numerical agreement (0.02 / 1e-4 degree) with vectors recomputed from the library are searched, not proved.")
 CLAUSES = {
+    "planets, callee hypotheses discharged (all 7; ideal instance; epochs j, j1 in years -2000..6000)": "proved [C09_body_<Planet>_unconditional, files C09_u_*.v generated from one template]: with property C07's theorems (VSOP87 evaluator = direct sum over the regenerated tables, amplitude envelopes of the B and R series checked by the kernel) and property C08's (nutation series structure and amplitude, true obliquity = mean + nutation, Sun.apparent_geocentric_position = Earth reflected) imported into this build, the planet at j and j1, the Earth at j, nutation / true obliquity / Sun at j1 are SHOWN to return the shapes assumed by C09_body_<Planet>, with |T| <= 40, |heliocentric latitude| <= 25 deg and |geocentric latitude betG| <= 25 deg DERIVED (amplitude sums + separation of the orbits: projected distance >= |r cos b - r0 cos b0|), |dpsi| <= 21 arcsec, 22 < obliquity < 25 deg; conclusion: geocentric_position(j) = (RAG, DECG, ELONG) closed forms with 0 <= RA < 360, -90 <= Dec <= 90, 0 <= elongation <= 180. ONE premise about a callee is left: Epoch.__isub__(Epoch(j), tau) = Epoch(j1) - the Epoch constructor recomputes the JDE through the calendar (get_full_date, _compute_jde), whose round trip over the reals belongs to property C02 and is proved nowhere; j1 is otherwise arbitrary in the year range. Nothing about binary64 rounding",
     "planets (all 7 generated bodies, whole function; PARTIAL CORRECTNESS, ideal instance): IF planet(j), planet(j1), Earth(j), Epoch.__isub__(j, tau)=j1, nutation(j1), obliquity(j1), Sun(j1) return values of the stated shape, with tau = 0.0057755183*|planet(j) - Earth(j)|, and |T(j1)| <= 40 cy, |beta| <= 25 deg, |B(j1)| <= 25 deg, THEN the body returns (RAG, DECG, ELONG): lambda = atan2(y,x), beta = atan2(z, sqrt(x^2+y^2)) of planet(j1) - Earth(j), aberration k = 20.49552 with the e, pi polynomials, FK5, nutation, ecliptical2equatorial (closed form, not abstracted), elongation acos(cos B cos(L - Lsun(j1)))": "proved [ideal, generated code, callees abstracted at the used arguments only: C09_body_<Planet>]; satisfiability of the VSOP87/nutation/Sun callee hypotheses NOT proved (shapes observed bit-exactly in correspondence)",
     "planets: lambda, beta of the generated body are the direction of (x,y,z) (atan2 quadrants), x or y nonzero": "proved [generated closed forms -> spec: C09_body_direction]",
     "planets: LAMG/BETG handed to ecliptical2equatorial = geometric (lambda, beta) in degrees + (aberration + FK5 + nutation) up to whole turns": "proved [generated closed forms: C09_body_LAMG_BETG]",
@@ -72,9 +80,9 @@ CLAUSES = {
     "planets: agreement to 0.02 deg with the direction recomputed from the library's heliocentric vectors, epochs -2000..4000": "unproved (searched)",
     "auxiliary (tighter than the property text): returned place within 0.002 deg of the apparent place rebuilt with independently written aberration/FK5 formulas and the library's nutation": "unproved (searched), key planet-apparent-place",
     "Mercury <= 28.5 deg, Venus <= 48 deg": "unproved (searched)",
-    "Pluto.geocentric_position body (PARTIAL CORRECTNESS, ideal): IF Epoch.year(j) = yv in [1885, 2099], Pluto.geometric_heliocentric_position at j and at j1 = Epoch.__sub__(j, tau), Sun.rectangular_coordinates_j2000(j) return, delta <> 0, THEN ra = atan2(eta, xi) in [0,360), dec = asin(zeta/delta) of Pluto(j1) + Sun(j); ValueError for yv outside": "proved [ideal, generated code, callees abstracted at the used arguments: C09_pluto_geo, C09_pluto_refuses]; closed form only, no tie to a direction lemma",
+    "Pluto.geocentric_position body (PARTIAL CORRECTNESS, ideal): IF Epoch.year(j) = yv in [1885, 2100), Pluto.geometric_heliocentric_position at j and at j1 = Epoch.__sub__(j, tau), Sun.rectangular_coordinates_j2000(j) return, delta <> 0, THEN ra = atan2(eta, xi) in [0,360), dec = asin(zeta/delta) of Pluto(j1) + Sun(j); ValueError for yv outside": "proved [ideal, generated code, callees abstracted at the used arguments: C09_pluto_geo, C09_pluto_refuses]; closed form only, no tie to a direction lemma",
     "Pluto.geometric_heliocentric_position (43-term series)": "unproved (searched): series of Meeus ch.37 re-evaluated independently with the module's tables (key pluto-heliocentric-series) + bit-exact correspondence",
-    "Pluto 1885-2099 direction to 1e-4 deg": "unproved (searched)",
+    "Pluto 1885-2099 direction to 1e-4 deg": "unproved (searched) over the full documented range [1885-01-01.0, 2100-01-01.0) incl. both edges every run (1885-01-01.0, +0.1, +0.3, +1 d, 2099-01-01, 2099-06-15, 2099-12-31.9; 2100-01-01.0 and 1884-12-31.9 must raise ValueError); refused inside the range: known finding pluto-first-hours-of-1885-refused (query epoch within 0.35 d after 1885-01-01.0: the light-time-shifted inner call falls below 1885.0), any other refusal inside the range: pluto-refused-in-range",
     "Minor.set: Gauss constants a,b,c,A,B,C closed forms; a = |q/(1-e)| (q > 0, e < 1 - tol) or q (q > 0, |e-1| <= tol); n = 0.9856076686/(a sqrt a)": "proved [ideal, generated code, any orientation]",
     "Minor: the Gauss constants rotate (r, u) into equatorial J2000 x,y,z (Rx(eps) Rz(Omega) Rx(i))": "proved [spec, used by the generated closed forms: gauss_xyz]",
     "Minor.geocentric_position, e < 0.98 (ideal): IF kepler_equation returns (E, v), |E| < 360, at the two mean anomalies the body passes, Sun.rectangular_coordinates_j2000(j) returns, |g||s| <> 0, THEN r = a(1 - e cos E), two light-time passes, ra/dec/psi = raM/decM/psiM": "proved [ideal, generated code: C09_minor_geo_elliptic]; the kepler hypotheses are satisfiable by the model for 0 <= e < 1: C09_kepler_sat_geo (from C11's characterisation)",
@@ -84,19 +92,32 @@ CLAUSES = {
     "Minor.heliocentric_ecliptical_position closed form, IF kepler_equation returns at the mean anomaly passed": "proved [ideal, generated code: C09_minor_helio]; satisfiable for 0 <= e < 1: C09_kepler_sat_helio",
     "Minor: continuity across the switch points e = 0.98, e = 1": "unproved (searched): same body at e = 0.98 -1e-9/+0/+1e-9 and 1 -1e-9/-2e-10/-1e-10/1.0 against one independent two-body propagation (1e-4 deg), _near_parabolic (v, r) to 1e-6",
     "Minor: direction to 1e-4 deg of an independent two-body propagation, q 0.1-30, e 0..1, +-50 yr; elongation to 0.02 deg": "unproved (searched)",
-    "Minor: _near_parabolic converges": "refuted by search for 0.98 <= e < ~0.9975 far from perihelion: known finding minor-near-parabolic-no-convergence (ValueError('No convergence') with 0.98 <= e < 1 - tol only)",
+    "Minor: _near_parabolic converges": "refuted by search for 0.98 <= e < ~0.9975 far from perihelion: known finding minor-near-parabolic-no-convergence (ValueError('No convergence') with 0.98 <= e < 1 - tol only); envelope of the key: x = (1 - e)(|t - T|/q^1.5)^(2/3) >= 6.5 and 0.98 <= e < 1 - 1e-10 (measured: every failure has x >= 6.92 and e <= 0.998, every call with x <= 6.9 converges, 11 % of uniform samples over +-50 y fail); a No convergence outside that region is reported as minor-near-parabolic-no-convergence-gross; a fixed far-from-perihelion grid (8 eccentricities x 5 perihelion distances x +-3..49.9 years) is evaluated every run",
     "[spec] C09_final_stage_direction, C09_elongation_range, C09_elongation_cos, C09_corrections_small": "proved [spec]; bridged to the generated closed forms by C09_body_direction / _elongation / _corrections",
 }
 
 
+C07_DEPS = ["C07_defs.v", "C07_lib.v", "C07_angle.v", "C07_sec_a.v", "C07_sec_b.v", "C07_sec_c.v", "C07_sec.v",
+            "C07_series.v", "C07_corr.v", "C07_mono.v", "C07_dec.v", "C07_mono_code.v", "C07_mono_earth.v"]
+C08_DEPS = ["C08_base.v", "C08_obliquity.v", "C08_sun.v", "C08_angle2.v", "C08_node.v", "C08_nut_angle.v",
+            "C08_nut_loop.v", "C08_nut_main.v", "C08_nut_bound.v", "C08_wide.v", "C08_app.v"]
+
+
 def proof_files(tier):
+    global THEOREMS
+    upl = list(PLANETS) if tier == "thorough" else list(U_QUICK)
+    THEOREMS = BASE_THEOREMS + ["C09_body_%s_unconditional" % p for p in upl]
     return (["C09_spec.v", "C09_minor.v", "C09_A_defs.v", "C09_A_tac.v", "C09_A_reduce.v", "C09_A_construct.v",
              "C09_A_ops.v", "C09_angle.v", "C09_geo.v", "C09_tac.v", "C09_E_angle.v", "C09_E_run.v", "C09_E_ecl.v",
              "C09_body.v", "C09_J_tac.v", "C09_J_jde.v",
              "C09_K_tac.v", "C09_K_loop.v", "C09_K_kepdefs.v", "C09_K_keppaths.v", "C09_K_kepler.v"]
             + ["C09_pl_%s.v" % p for p in PLANETS]
             + ["C09_planets.v"] + ["C09_b_%s.v" % p for p in PLANETS]
-            + ["C09_mbody.v", "C09_mgeo.v", "C09_mnp.v", "C09_pluto.v", "C09.v"])
+            + ["C09_mbody.v", "C09_mgeo.v", "C09_mnp.v", "C09_pluto.v", "C09.v"]
+            # imported proof files of C07 / C08 (compiled inside this property's build) and the unconditional statements
+            + ["../C07/" + f for f in C07_DEPS] + ["../C07/C07_mono_%s.v" % p.lower() for p in upl]
+            + ["../C08/" + f for f in C08_DEPS]
+            + ["C09_u_vsop.v", "C09_u_geo.v", "C09_u_body.v"] + ["C09_u_%s.v" % p for p in upl])
 
 
 # ----------------------------------------------------------------------------------------------
@@ -240,11 +261,24 @@ def pluto_series(I, jde):
 def check_pluto(I, jde):
     out = []
     ep = I.Epoch(jde); j0 = ep.jde()
+    inside = J1885 <= jde < J2100
     try:
         ra, dec = I.Pluto.geocentric_position(ep)
-        l, b, r = I.Pluto.geometric_heliocentric_position(I.Epoch(jde))
+    except ValueError as ex:
+        if "outside the 1885-2099 range" in str(ex):
+            if not inside: return []                    # documented refusal
+            if jde < J1885 + 0.35:                      # known finding: the light-time-shifted inner call falls below 1885.0
+                return [("pluto-first-hours-of-1885-refused", "Pluto.geocentric_position(Epoch(%r)) (%.3f d after 1885-01-01.0) raises %r" % (jde, jde - J1885, ex))]
+            return [("pluto-refused-in-range", "Pluto.geocentric_position(Epoch(%r)) raises %r although the epoch is inside [1885-01-01.0, 2100-01-01.0)" % (jde, ex))]
+        return [("pluto-raises", "Pluto at JDE %r raises %r" % (jde, ex))]
     except Exception as ex:
         return [("pluto-raises", "Pluto at JDE %r raises %r" % (jde, ex))]
+    if not inside:
+        return [("pluto-not-refused", "Pluto.geocentric_position(Epoch(%r)) returns a position although the epoch is outside [1885-01-01.0, 2100-01-01.0)" % jde)]
+    try:
+        l, b, r = I.Pluto.geometric_heliocentric_position(I.Epoch(jde))
+    except Exception as ex:
+        return [("pluto-refused-in-range", "Pluto.geometric_heliocentric_position(Epoch(%r)) raises %r inside the range" % (jde, ex))]
     if ep.jde() != j0:
         out.append(("epoch-shifted", "Pluto.geocentric_position changed the caller's Epoch"))
     wl, wb, wr = pluto_series(I, jde)
@@ -266,6 +300,24 @@ def check_pluto(I, jde):
     if not 0.0 <= float(ra) < 360.0:
         out.append(("pluto-ra-range", "Pluto at JDE %r: ra %r" % (jde, float(ra))))
     return out
+
+
+# known finding minor-near-parabolic-no-convergence, envelope: the series of Minor._near_parabolic stops converging
+# when x = (1 - e) * (|t - T| / q^1.5)^(2/3) is large (t - T in days, q in AU).  Measured on the unchanged tree
+# (20000 samples, 0.98 <= e < 1, q in 0.1..30, |t - T| <= 50 y): every 'No convergence' has x >= 6.92 and
+# e <= 0.998, every x <= 6.9 converges (converging calls reach x = 7.38); 11 % of those samples fail.
+# A 'No convergence' with x < 6.5 (or outside 0.98 <= e < 1 - 1e-10) is NOT the known finding: key ...-gross.
+NP_X_MIN = 6.5
+
+
+def np_x(q, e, dt):
+    return (1.0 - e) * (abs(dt) / q ** 1.5) ** (2.0 / 3.0)
+
+
+def np_key(q, e, dt):
+    if 0.98 <= e < 1.0 - 1e-10 and np_x(q, e, dt) >= NP_X_MIN:
+        return "minor-near-parabolic-no-convergence"
+    return "minor-near-parabolic-no-convergence-gross"
 
 
 # --- minor bodies: independent two-body propagation (universal variable, any e)
@@ -333,10 +385,11 @@ def check_minor(I, el, jde, stats):
         mb = mk_minor(I, el)
         ra, dec, psi = mb.geocentric_position(ep)
     except ValueError as ex:
-        if "No convergence" in str(ex) and 0.98 <= e < 1.0 - 1e-10:
+        if "No convergence" in str(ex):
             stats["no_convergence"] = stats.get("no_convergence", 0) + 1     # known finding: _near_parabolic far from perihelion
-            return [("minor-near-parabolic-no-convergence", "%s: ValueError('No convergence') from _near_parabolic (%.1f d from perihelion; two-body position ra=%.5f dec=%.5f)"
-                     % (tag, jde - tp, math.degrees(math.atan2(g[1], g[0])) % 360, math.degrees(math.atan2(g[2], math.hypot(g[0], g[1])))))]
+            stats["no_convergence_min_x"] = min(stats.get("no_convergence_min_x", 1e9), np_x(q, e, jde - tp))
+            return [(np_key(q, e, jde - tp), "%s: ValueError('No convergence') from _near_parabolic (%.1f d from perihelion, x = (1-e)(|t-T|/q^1.5)^(2/3) = %.3f; two-body position ra=%.5f dec=%.5f)"
+                     % (tag, jde - tp, np_x(q, e, jde - tp), math.degrees(math.atan2(g[1], g[0])) % 360, math.degrees(math.atan2(g[2], math.hypot(g[0], g[1])))))]
         if "math domain" in str(ex) and abs(math.cos(math.radians(want_el)) * d / d0) > 1 - 1e-9:
             return [("minor-elongation-stale-delta", "%s: raises ValueError(math domain error): acos argument (xi.xs)/(r_sun*delta) uses the first-pass delta=%.9f with second-pass xi (|xi|=%.9f), elongation %.4f"
                      % (tag, d0, d, want_el))]
@@ -386,9 +439,10 @@ def check_near_parabolic(I, q, e, t, stats):
     try:
         v, r = mk_minor(I, el)._near_parabolic(t)
     except ValueError as ex:
-        if "No convergence" in str(ex) and 0.98 <= e < 1.0 - 1e-10:
+        if "No convergence" in str(ex):
             stats["no_convergence"] = stats.get("no_convergence", 0) + 1
-            return [("minor-near-parabolic-no-convergence", "Minor(q=%r,e=%r)._near_parabolic(%r) raises ValueError('No convergence')" % (q, e, t))]
+            stats["no_convergence_min_x"] = min(stats.get("no_convergence_min_x", 1e9), np_x(q, e, t))
+            return [(np_key(q, e, t), "Minor(q=%r,e=%r)._near_parabolic(%r) raises ValueError('No convergence'), x = (1-e)(|t|/q^1.5)^(2/3) = %.3f" % (q, e, t, np_x(q, e, t)))]
         return [("minor-raises", "Minor(q=%r,e=%r)._near_parabolic(%r) raises %r" % (q, e, t, ex))]
     except Exception as ex:
         return [("minor-raises", "Minor(q=%r,e=%r)._near_parabolic(%r) raises %r" % (q, e, t, ex))]
@@ -410,9 +464,14 @@ def gen_jde(rng):
     return round(rng.uniform(JMIN, JMAX), 3)
 
 
+J1885, J2100 = 2409542.5, 2488069.5      # 1885-01-01.0 and 2100-01-01.0: the documented range is [J1885, J2100)
+PLUTO_EDGES = [J1885, J1885 + 0.1, J1885 + 0.3, J1885 + 1.0, 2487704.5, 2487869.5, J2100 - 0.1,   # inside (2099-01-01, 2099-06-15, 2099-12-31.9)
+               J2100, J1885 - 0.1]                                                                 # outside: must raise ValueError
+
+
 def gen_pluto_jde(rng):
-    if rng.random() < 0.1: return rng.choice([2409547.5, 2487700.5, 2448908.5, 2451545.0])   # 1885-01-20, 2099-01.., Meeus example
-    return round(rng.uniform(2409547.5, 2487700.5), 3)
+    if rng.random() < 0.1: return rng.choice([2409547.5, 2487700.5, 2448908.5, 2451545.0])   # 1885-01-06, 2098-12-28, Meeus example
+    return round(rng.uniform(J1885 + 0.4, J2100 - 0.001), 3)
 
 
 E_SWITCH = [0.98 - 1e-9, 0.98, 0.98 + 1e-9, 1.0 - 1e-9, 1.0, 1.0 - 1e-10, 1.0 - 2e-10, 0.0, 0.5, 0.97, 0.99, 0.999, 0.9999]
@@ -522,8 +581,7 @@ def search(rng, tier, deep):
             n += 1; nontriv += 1
             add(check_planet(I, p, jde), [p, jde], "planet %s %r" % (p, jde))
     # Pluto
-    for _ in range(300 if full else 40):
-        jde = gen_pluto_jde(rng)
+    for jde in PLUTO_EDGES + [gen_pluto_jde(rng) for _ in range(300 if full else 40)]:
         n += 1; nontriv += 1
         add(check_pluto(I, jde), ["Pluto", jde], "pluto %r" % jde)
     # minor bodies
@@ -558,10 +616,23 @@ def search(rng, tier, deep):
         t = round(rng.uniform(-1, 1) * (40.0 * q ** 1.5 + 20.0), 4)
         n += 1; nontriv += 1
         add(check_near_parabolic(I, q, e, t, stats_extra), ["Minor._near_parabolic", q, e, t], "nearpar %r %r %r" % (q, e, t))
+    # always: the far-from-perihelion region of the property's +-50 years (fixed grid, every run)
+    for e in (0.98, 0.985, 0.99, 0.995, 0.998, 0.999, 0.9999, 1.0 - 1e-9):
+        for q in (0.1, 0.5, 2.0, 8.0, 30.0):
+            for yrs in (-49.9, -30.0, -10.0, 3.0, 20.0, 49.9):
+                t = round(yrs * 365.25, 2)
+                n += 1; nontriv += 1
+                add(check_near_parabolic(I, q, e, t, stats_extra), ["Minor._near_parabolic", q, e, t], "nearpar %r %r %r" % (q, e, t))
+    for _ in range(120 if full else 30):
+        el, jde = gen_minor(rng, e=rng.choice([0.98, 0.99, 0.995, 0.999, 0.9999]))
+        jde = el[5] + math.copysign(rng.uniform(5.0, 50.0) * 365.25, rng.random() - 0.5)
+        n += 1; nontriv += 1
+        add(check_minor(I, el, jde, stats_extra), ["Minor", list(el), jde], "minor %s %r" % (" ".join(repr(x) for x in el), jde))
     stats = {"evaluations": n, "distinct_nontrivial": nontriv,
              "rule": "7 planets x %d epochs in -2000..4000 (direction vs library vectors 0.02 deg, elongation vs Sun at epoch and at epoch-tau, range, Mercury/Venus maxima, Epoch unchanged); Pluto 1885-2099 (1e-4 deg, series re-evaluated); minor bodies q 0.1-30, e in [0,1] incl. 0.98/1.0 +-1e-9, any orientation, +-50 yr, plus a fixed grid + random sample of exactly parabolic bodies (e = 1.0, q 0.1-1.5, +-30 d) (1e-4 deg vs independent two-body propagation, elongation, switch-point continuity, _near_parabolic (v,r))" % (npl + 1),
              "samples": [{"input": ["Neptune", 2448976.5], "checked": "direction within 0.02 deg of Earth(t)->Neptune(t-tau); elongation vs Sun(t) [known finding] and Sun(t-tau)"}],
              "per_key_counts": per_key, "near_parabolic_no_convergence_refusals": stats_extra.get("no_convergence", 0),
+             "near_parabolic_no_convergence_min_x": stats_extra.get("no_convergence_min_x"),
              "exhaustive_search": False}
     return findings, stats
 
